@@ -121,3 +121,31 @@ Proof. reflexivity. Qed.
 Lemma calls_asyncstd_poll_next_ok : calls_asyncstd_poll_next =
   [".poll_signal"; "Self::has_signals"; "PollResult::Signal"; "Poll::Ready"; "Poll::Ready"; "panic!"].
 Proof. reflexivity. Qed.
+
+Lemma calls_mio_new_ok : calls_mio_new =
+  ["Self::with_exfiltrator"; "E::default"].
+Proof. reflexivity. Qed.
+
+Lemma calls_mio_with_exfiltrator_ok : calls_mio_with_exfiltrator =
+  ["Pipe::pair"; "?"; "SignalDelivery::with_pipe"; "?"; "Self"].
+Proof. reflexivity. Qed.
+
+Lemma calls_mio_add_signal_ok : calls_mio_add_signal =
+  [".handle"; ".add_signal"].
+Proof. reflexivity. Qed.
+
+Lemma calls_mio_pending_ok : calls_mio_pending =
+  [".pending"].
+Proof. reflexivity. Qed.
+
+Lemma calls_mio_register_ok : calls_mio_register =
+  [".get_read_mut"; ".register"].
+Proof. reflexivity. Qed.
+
+Lemma calls_mio_reregister_ok : calls_mio_reregister =
+  [".get_read_mut"; ".reregister"].
+Proof. reflexivity. Qed.
+
+Lemma calls_mio_deregister_ok : calls_mio_deregister =
+  [".get_read_mut"; ".deregister"].
+Proof. reflexivity. Qed.
